@@ -24,7 +24,8 @@ THEOREMS = {'C01': ['Cctz.C01.breakTime_table', 'Cctz.C01.breakTime_shift', 'Cct
                     'Cctz.C10Safe.makeTime_ok', 'Cctz.C10Safe.convert_ok', 'Cctz.C10Safe.transitions_ok', 'Cctz.C10Safe.results_in_range',
                     'Cctz.C10Safe.breakTime_ok_partial', 'Cctz.C10Safe.breakTime_ok_below_max', 'Cctz.C10Safe.breakTime_ok_nonextended', 'Cctz.C10Safe.breakTime_ok_counterexample',
                     'Cctz.C10Check.checker_sound', 'Cctz.C10Check.checker_complete', 'Cctz.C10Check.checked_zone_safe', 'Cctz.C10Check.checked_zone_results_in_range'],
-            'C11': ['Cctz.C11.nextTransition_spec', 'Cctz.C11.prevTransition_spec', 'Cctz.C11.ends', 'Cctz.C11.no_change', 'Cctz.C11.chain', 'Cctz.C11.constants'],
+            'C11': ['Cctz.C11.nextTransition_spec', 'Cctz.C11.prevTransition_spec', 'Cctz.C11.ends', 'Cctz.C11.no_change', 'Cctz.C11.chain', 'Cctz.C11.constants',
+                    'Cctz.C11Sub.order', 'Cctz.C11Sub.nextSub_spec', 'Cctz.C11Sub.prevSub_spec', 'Cctz.C11Sub.floor_alone_misses'],
             'C14': ['Cctz.C14.breakTime_hint_irrelevant', 'Cctz.C14.makeTime_hint_irrelevant', 'Cctz.C14.convert_hint_irrelevant', 'Cctz.C14.history_irrelevant']}
 K400 = Z.K400
 
@@ -433,7 +434,7 @@ def run_C06(chk):
 # ------------------------------------------------------------------------------------ C11
 
 def run_C11(chk):
-    chk.prepare_model('Cctz.Properties.C11', THEOREMS['C11'])
+    chk.prepare_model(['Cctz.Properties.C11', 'Cctz.Properties.C11Sub'], THEOREMS['C11'])
     exe = chk.harness('san')
     scale = chk.tier if not (chk.broken or chk.degraded) else 'thorough'
     if exe is None or not getattr(chk, 'driver_ok', False):
